@@ -1,9 +1,9 @@
 SPECIFICATION Spec
 CONSTANTS
-  Scenario = "mio8"
-  N = 2
+  Scenario = "nkstream"
+  N = 4
   Cap = 16
-  Kinds <- KindsNone
+  Kinds <- KindsVDDV
   GenK = 1
 VIEW View
 INVARIANT Inv_NoLostWake
